@@ -15,7 +15,7 @@ static void vc_ResizeMatrix(matrix *m, size_t r, size_t c) { m->row = r; m->col 
 static void vc_DVectorResize(dvector *d, size_t n) { d->size = n; dv_size = n; dv_calls++; }
 #define ResizeMatrix vc_ResizeMatrix
 #define DVectorResize vc_DVectorResize
-#include "/repo/src/metricspace.c"
+#include "metricspace.c"
 
 static void mon_decode(void *(*fn)(void *), void *arg)
 {
